@@ -60,13 +60,22 @@ def scancode_cell(prop, oid, info, binpath):
     ref = _ref()
     if prop in ('C01', 'C02') and len(parts) == 4:
         setn, ctx, code = parts[1], parts[2], parts[3]
-        seq = CTX_PREFIX[ctx] + [code[2:]]
+        cv = int(code, 16)
+        key = ref[setn][ctx].get(code)
+        if setn == 'set1' and cv >= 0x80:
+            return None   # Set 1 tables are only consulted with the low seven bits: this cell is not reachable through the API
+        is_prefix = (setn == 'set2' and (cv == 0xF0 or (ctx == 'plain' and cv in (0xE0, 0xE1)))) or (setn == 'set1' and ctx == 'plain' and cv in (0xE0, 0xE1))
+        if is_prefix:
+            # the make path treats this byte as a prefix; the table entry is observable through the break path
+            seq = CTX_PREFIX[ctx] + ['F0', code[2:]]
+            expected = ('%s/Up' % key) if key else 'Err:UnknownKeyCode'
+        else:
+            seq = CTX_PREFIX[ctx] + [code[2:]]
+            expected = ('%s/Down' % key) if key else 'Err:UnknownKeyCode'
+            if setn == 'set2' and ctx == 'plain' and code in ('0x00', '0xAA'):
+                expected = '%s/SingleShot' % key
         cmd = ['bytes', setn[-1]] + seq
         rc, out, err = native.run(binpath, cmd)
-        key = ref[setn][ctx].get(code)
-        expected = ('%s/Down' % key) if key else 'Err:UnknownKeyCode'
-        if setn == 'set2' and ctx == 'plain' and code in ('0x00', '0xAA'):
-            expected = '%s/SingleShot' % key
         observed = out.split(' ')[-1] if out else err
         return {'input': {'scancode_set': setn, 'bytes': ['0x' + b for b in seq]}, 'expected': expected, 'observed': observed,
                 'native_cmd': cmd, 'reproduced': observed != expected}
@@ -82,28 +91,41 @@ def scancode_cell(prop, oid, info, binpath):
             o1 = native.run(binpath, ['bytes', '1'] + s1)[1].split(' ')[-1]
             return {'input': {'set2_bytes': ['0x' + b for b in s2], 'set1_bytes (i8042 translation)': ['0x' + b for b in s1]},
                     'expected': 'identical key events', 'observed': 'Set 2: %s ; Set 1: %s' % (o2, o1),
-                    'native_cmd': ['bytes', '2'] + s2, 'native_cmd2': ['bytes', '1'] + s1, 'reproduced': o1 != o2}
+                    'native_cmd': ['bytes', '2'] + s2, 'native_cmd2': ['bytes', '1'] + s1,
+                    # the forward direction only speaks about keys Set 2 expresses
+                    'reproduced': o2.endswith('/Down') and o1 != o2}
         else:
             s1 = CTX_PREFIX[ctx] + [code[2:]]
             o1 = native.run(binpath, ['bytes', '1'] + s1)[1].split(' ')[-1]
-            where = []
+            if o1.startswith('Err') or o1 == 'None' or not o1.endswith('/Down'):
+                return {'input': {'set1_bytes': ['0x' + b for b in s1]}, 'expected': 'n/a', 'observed': o1, 'native_cmd': ['bytes', '1'] + s1, 'reproduced': False}
+            where, bad = [], False
             for c2ctx in ('plain', 'e0', 'e1'):
                 for c in range(256):
-                    if tables['set2/' + c2ctx][c].split('/')[0] == o1.split('/')[0] and not tables['set2/' + c2ctx][c].startswith('Err'):
-                        where.append('%s 0x%02X (i8042 gives %s %s)' % (c2ctx, c, c2ctx, x.get('0x%02X' % c, 'no translation')))
+                    v = tables['set2/' + c2ctx][c]
+                    if v.startswith('Err') or v == 'None' or v.endswith('/Up'):
+                        continue
+                    if v.split('/')[0] == o1.split('/')[0]:
+                        tr = x.get('0x%02X' % c)
+                        where.append('%s 0x%02X (i8042 gives %s %s)' % (c2ctx, c, c2ctx, tr or 'no translation'))
+                        if c2ctx != ctx or tr is None or int(tr, 16) != int(code, 16):
+                            bad = True
             return {'input': {'set1_bytes': ['0x' + b for b in s1]}, 'expected': 'the key\'s Set 2 sequence translates to exactly this Set 1 sequence',
                     'observed': 'Set 1 gives %s; Set 2 expresses that key at: %s' % (o1, '; '.join(where) or 'nowhere'),
-                    'native_cmd': ['bytes', '1'] + s1, 'reproduced': True}
+                    'native_cmd': ['bytes', '1'] + s1, 'reproduced': bad}
     if prop == 'C19' and len(parts) == 4:
         setn, ctx, code = parts[1], parts[2], int(parts[3], 16)
         tables = native.hints(info, 'tables')
         me = tables['%s/%s' % (setn, ctx)][code]
+        if me.startswith('Err') or me == 'None' or me.endswith('/Up'):
+            # not a make code of a key (Set 1 bytes >= 0x80 are break codes; prefix bytes give None): nothing to be injective about
+            return {'input': {'scancode_set': setn, 'bytes': []}, 'expected': 'n/a', 'observed': me, 'native_cmd': ['bytes', setn[-1]] + CTX_PREFIX[ctx] + ['%02X' % code], 'reproduced': False}
         key = me.split('/')[0]
         same = []
         for c2ctx in ('plain', 'e0', 'e1'):
-            for c in range(256 if setn == 'set2' else 128):
+            for c in range(256):
                 v = tables['%s/%s' % (setn, c2ctx)][c]
-                if not v.startswith('Err') and v != 'None' and v.split('/')[0] == key and (c2ctx, c) != (ctx, code):
+                if not v.startswith('Err') and v != 'None' and not v.endswith('/Up') and v.split('/')[0] == key and (c2ctx, c) != (ctx, code):
                     same.append('%s 0x%02X' % (c2ctx, c))
         seq = CTX_PREFIX[ctx] + ['%02X' % code]
         return {'input': {'scancode_set': setn, 'bytes': ['0x' + b for b in seq]}, 'expected': 'no other sequence of the set denotes %s' % key,
